@@ -1218,6 +1218,6 @@ func TestC16(t *testing.T) {
 	c.Extra("repetitions_per_gomaxprocs", float64(reps))
 	c.Rule(fmt.Sprintf("pipelines: 1 source goroutine (or 2..4 sources into one channel + closer goroutine with a join channel), 0..3 transformer goroutines, n in 0..200 items, buffers 0..3, element types int64/float64/string/interface, every goroutine started by go (named/var/literal/item/member; <=4 params direct path, >=5 or variadic reflect path) with value arguments the caller changes right after the go statement; yield(j) at generated points; each program run under GOMAXPROCS 1,2,16 x %d repetitions with -race; non-trivial = >=2 goroutines and (>=1 unbuffered channel or n > sum of buffers); distinct by (source text, GOMAXPROCS list)", reps))
 	c.Rule("closed: one goroutine, one channel, generated send/receive/close sequence that never blocks, modelled as a FIFO with a closed flag; non-trivial = at least one operation after close while an item is still buffered or an error-raising operation")
-	h.Run(c, "pipeline", c.N(400, 800), genCase, oracleFor(reps))
+	h.Run(c, "pipeline", c.N(400, 700), genCase, oracleFor(reps))
 	h.Run(c, "closed", c.N(1500, 20000), genClosed, oracleClosed)
 }
